@@ -243,9 +243,13 @@ def check(ctx) -> None:
             "C14-S2",
             "%s:{%s}" % (short.split(".", 1)[-1] if "." in short else short, ",".join(markers)),
             gating[0].where(),
-            "substring / regex test on a joined side string that carries the given molecules gates the outcome (%s); it sees how and in which order the molecules are written" % "; ".join(o.detail for o in gating),
+            "a spelling-observing test (substring, regex, text length or textual identity) on text that carries the given molecules gates the outcome (%s); it sees how and in which order the molecules are written" % "; ".join(o.detail for o in gating),
         )
     # S4: the carbon label counts molecules, not distinct spellings (shared with C07-E6)
     from . import c07
 
     c07.rule_e6(ctx, "C14-S4")
+    # S5: the atom-mapped spelling denotes the same molecules after map removal (shared with C15-Rg1/Rg2)
+    from . import c15
+
+    c15.rule_rg1_rg2(ctx, "C14-S5", "C14-S5")
